@@ -4,6 +4,7 @@ import (
 	"fmt"
 	"io"
 	"sort"
+	"sync"
 
 	"github.com/lugu/qiloop/bus"
 	"github.com/lugu/qiloop/bus/util"
@@ -11,8 +12,14 @@ import (
 	"github.com/lugu/qiloop/vhook"
 )
 
-// serviceDirectory implements ServiceDirectoryImplementor
+// serviceDirectory implements ServiceDirectoryImplementor. The
+// methods are called from the mailbox of the object (remote requests)
+// and directly from the goroutines of the hosting server (Namespace
+// and Session): the mutex serializes them. It is held while the
+// signals are emitted so that every subscriber observes the events
+// in the order of the state changes.
 type serviceDirectory struct {
+	mutex    sync.Mutex
 	staging  map[uint32]ServiceInfo
 	services map[uint32]ServiceInfo
 	lastID   uint32
@@ -30,6 +37,8 @@ func serviceDirectoryImpl() *serviceDirectory {
 
 func (s *serviceDirectory) Activate(activation bus.Activation,
 	helper ServiceDirectorySignalHelper) error {
+	s.mutex.Lock()
+	defer s.mutex.Unlock()
 	s.signal = helper
 	return nil
 }
@@ -59,6 +68,8 @@ func checkServiceInfo(i ServiceInfo) error {
 }
 
 func (s *serviceDirectory) info(serviceID uint32) (ServiceInfo, error) {
+	s.mutex.Lock()
+	defer s.mutex.Unlock()
 	info, ok := s.services[serviceID]
 	if !ok {
 		return info, fmt.Errorf("service %d not found", serviceID)
@@ -67,6 +78,8 @@ func (s *serviceDirectory) info(serviceID uint32) (ServiceInfo, error) {
 }
 
 func (s *serviceDirectory) Service(service string) (info ServiceInfo, err error) {
+	s.mutex.Lock()
+	defer s.mutex.Unlock()
 	for _, info = range s.services {
 		if info.Name == service {
 			return info, nil
@@ -82,6 +95,8 @@ func (a serviceList) Swap(i, j int)      { a[i], a[j] = a[j], a[i] }
 func (a serviceList) Less(i, j int) bool { return a[i].ServiceId < a[j].ServiceId }
 
 func (s *serviceDirectory) Services() ([]ServiceInfo, error) {
+	s.mutex.Lock()
+	defer s.mutex.Unlock()
 	list := make([]ServiceInfo, 0, len(s.services))
 	for _, info := range s.services {
 		list = append(list, info)
@@ -94,6 +109,8 @@ func (s *serviceDirectory) RegisterService(newInfo ServiceInfo) (uint32, error) 
 	if err := checkServiceInfo(newInfo); err != nil {
 		return 0, err
 	}
+	s.mutex.Lock()
+	defer s.mutex.Unlock()
 	for _, info := range s.staging {
 		if info.Name == newInfo.Name {
 			return 0, fmt.Errorf("Service name already staging: %s", info.Name)
@@ -112,6 +129,8 @@ func (s *serviceDirectory) RegisterService(newInfo ServiceInfo) (uint32, error) 
 }
 
 func (s *serviceDirectory) UnregisterService(id uint32) error {
+	s.mutex.Lock()
+	defer s.mutex.Unlock()
 	i, ok := s.services[id]
 	if ok {
 		delete(s.services, id)
@@ -131,6 +150,8 @@ func (s *serviceDirectory) UnregisterService(id uint32) error {
 }
 
 func (s *serviceDirectory) ServiceReady(id uint32) error {
+	s.mutex.Lock()
+	defer s.mutex.Unlock()
 	i, ok := s.staging[id]
 	if ok {
 		delete(s.staging, id)
@@ -150,6 +171,8 @@ func (s *serviceDirectory) UpdateServiceInfo(i ServiceInfo) error {
 		return err
 	}
 
+	s.mutex.Lock()
+	defer s.mutex.Unlock()
 	info, ok := s.services[i.ServiceId]
 	if !ok {
 		return fmt.Errorf("Service not found: %d (%s)", i.ServiceId, i.Name)
